@@ -506,6 +506,23 @@ class Sim:
             if g.reads:
                 raise VlogUnsupported(f"non-constant initialiser of {n}")
             v0[self.idx[n]] = eval(src, {"v": v0}) & _mask(w)
+        # initial blocks with (constant) assignments: executed once at time 0, blocking immediately, NBAs afterwards.
+        # The variables they assign change at time 0 (x -> value), which triggers every always @(*) that reads them.
+        for st, ln in M.initials:
+            g = _Gen(self)
+            out = []
+            g.stmt(st, 1, out)
+            if g.reads:
+                raise VlogUnsupported(f"line {ln}: initial block reading signals")
+            for w in g.writes:
+                if w.startswith("mem:") or M.sig[w][2] != "reg":
+                    raise VlogSyntaxError(f"line {ln}: initial assignment to a net or memory")
+            ns = {"_rd": _rd, "_wr": _wr}
+            exec("def _init(v, mems, q, qm):\n" + "\n".join(out), ns)
+            q = []
+            ns["_init"](v0, [], q, [])
+            for i, keep, x in q:
+                v0[i] = (v0[i] & keep) | x
         self.v0 = v0
         mems0 = []
         for n in self.memnames:
